@@ -276,8 +276,8 @@ pub fn run(g: &mut Global) {
         &check,
     );
     let tier = g.tier;
-    g.random("random", g.tier.pick(6000, 60000), &move || strategy(tier), &check);
+    g.random("random", g.tier.pick(40000, 300000), &move || strategy(tier), &check);
     if g.tier == Tier::Thorough {
-        g.random("long", 400, &long_strategy, &check);
+        g.random("long", 800, &long_strategy, &check);
     }
 }
